@@ -192,6 +192,25 @@ func repro(args []string) error {
 		out["single_id_check"] = map[string]interface{}{"verify_block": verify(m), "single_accepts_wrong_id": sok,
 			"id_repaired_in_place": bytes.Equal(ag.GetBlockid(), blk.Blockid), "pow_accepts_wrong_id": wok}
 	}
+	// outside C08 (robustness): a public key whose point is not on the curve makes VerifyBlock panic
+	// (crypto/elliptic panics on invalid points since Go 1.19); the id is recomputable by anybody
+	{
+		blk := format([]*pb.Transaction{a}, nil, nil, 10)
+		m := clone(blk)
+		m.Pubkey = bytes.Replace(m.Pubkey, []byte(`"X":`), []byte(`"X":1`), 1)
+		m.Blockid, _ = ledger.MakeBlockID(m)
+		r := map[string]interface{}{}
+		func() {
+			defer func() {
+				if p := recover(); p != nil {
+					r["verify_block_panic"] = fmt.Sprint(p)
+				}
+			}()
+			ok, _ := l.VerifyBlock(m, "repro")
+			r["verify_block"] = ok
+		}()
+		out["pubkey_off_curve"] = r
+	}
 	js, _ := json.MarshalIndent(out, "", " ")
 	fmt.Println(string(js))
 	return nil
